@@ -503,7 +503,8 @@ def _typed_case(case, cwd):
     if c_argv is not None and (c_obj is None or not teq(c_obj, c_argv)):
         configs.append(("argv", c_argv, None))
     res["key"] = json.dumps([shape, tspec, case["default"], mode, [tcanon(c) for _, c, _ in configs]], sort_keys=True, default=repr)
-    res["nontrivial"] = _nontrivial(configs, mk, drop)
+    pkey = None if "Path" in tkey(tspec) else json.dumps([shape, tspec, case["default"], mode], sort_keys=True)
+    res["nontrivial"] = _nontrivial(configs, mk, drop, pkey)
     res["spec_kinds"] = sorted({k for _, c, _ in configs for k in _spec_kinds(c)})
     raised = set()  # dump channels that deviated for this case (a failing --print_config with the same flags is the same root cause)
     reported = set()  # (format, class) already reported by a more basic channel of this case: one root cause, one signature
@@ -586,7 +587,9 @@ def _typed_case(case, cwd):
         report("dump-skip_default", *run_dump_channel("dump-skip_default", formats, skip_none=False, skip_default=True), formats)
         # -- default dump (drops None entries): judged on the entries that are not None
         report("dump-skip_none", *run_dump_channel("dump-skip_none", (f0,), modulo_none=True), (f0,))
-        report("dump-skip_none+skip_default", *run_dump_channel("dump-skip_none+skip_default", (f0,), modulo_none=True, skip_default=True), (f0,))
+        # (quick, flat parser: only where a None entry makes the text differ from the nulls-kept skip_default dump above)
+        if shape != "flat" or save_all or has_none(c0):
+            report("dump-skip_none+skip_default", *run_dump_channel("dump-skip_none+skip_default", (f0,), modulo_none=True, skip_default=True), (f0,))
         # -- dump without validation (the per-action serialisation takes a separate branch), nulls kept
         # (structured shapes; on the flat parser the same branch is taken by the multi-file save below, for every case)
         if shape != "flat":
@@ -809,16 +812,25 @@ def _base_fmt(f):
     return "yaml" if f == "yaml_comments" else f
 
 
-def _nontrivial(configs, mk, drop):
-    """A typed case is non-trivial when the accepted configuration differs from the parser's defaults or holds a
-    string (every string is a potential lookalike)."""
-    from mc.util import outcome, teq
+_DEFAULTS_CANON = {}  # parser key -> canonical form of the parser's defaults (a statistic only; never used by the oracle)
 
-    o = outcome(mk().get_defaults)
-    if o["kind"] != "ok":
+
+def _nontrivial(configs, mk, drop, pkey=None):
+    """A typed case is non-trivial when the accepted configuration differs from the parser's defaults.  The
+    defaults depend on the parser only (shape, type, default, mode), so their canonical form is computed once per
+    worker process and parser (not for Path types, whose defaults hold the case's scratch directory)."""
+    from mc.util import outcome, tcanon
+
+    if pkey is None or pkey not in _DEFAULTS_CANON:
+        o = outcome(mk().get_defaults)
+        canon = tcanon(strip_cfg(o["value"], drop)) if o["kind"] == "ok" else None
+        if pkey is not None:
+            _DEFAULTS_CANON[pkey] = canon
+    else:
+        canon = _DEFAULTS_CANON[pkey]
+    if canon is None:
         return True
-    dflt = strip_cfg(o["value"], drop)
-    return any(not teq(c, dflt) for _, c, _ in configs)
+    return any(tcanon(c) != canon for _, c, _ in configs)
 
 
 def typed_worker(case):
